@@ -93,6 +93,26 @@ def _reg(args):
     return out, info
 
 
+def _cls_nolp(args):
+    """classification EG without the LP step on larger simulated data: the index of weights_ is often NOT in id order there"""
+    case, conf, seed = args
+    import fairlearn.reductions as red
+    kind, eps_b, max_iter, which = conf
+    d = M.materialise(case, seed, which)
+    F = case["F"]
+    detail = {"config": conf, "data": {k: d[k] for k in ("g", "y", "f")}}
+    try:
+        eg = red.ExponentiatedGradient(RC.ExactLearner(), M.make_moment(kind, [1, 1], 0.02), eps=eps_b, max_iter=max_iter, run_linprog_step=False, nu=1e-6)
+        eg.fit(d["X"], np.array(d["y"]), sensitive_features=d["g"])
+    except Exception as e:
+        if "sample_weight contains NaN" in str(e) or "at least one non-zero" in str(e):
+            return [], {"skipped": True}
+        return [({"api": "EG.fit", "kind": "exception", "exc": type(e).__name__}, f"raised {e!r}", detail)], {}
+    w = eg.weights_
+    viol, drift = E.c10_eg(eg, None, F, seed, {"moment": kind, "run_lp": False}, detail)
+    return viol, {"unordered": list(w.index) != sorted(w.index), "support": int((w > 0).sum())}
+
+
 def run(ck):
     ck.rule = ("ThresholdOptimizer models: fitted on every Valid TLC dataset for a seeded sample of configurations (pmf clauses on a scrambled query set with duplicates and "
                "off-level scores, 12 seeds; frequency clause on a sub-sample); EG models: fits of C08 (classification) and BoundedGroupLoss regression fits without the LP step")
@@ -150,6 +170,16 @@ def run(ck):
         rsupport += info.get("support", 0) > 1
         for sig, text, detail in viol:
             ck.violation(sig, text, {"rows": c["rows"], **detail})
+    cjobs = [(c, (rnd.choice(["DP", "EO", "TPR"]), rnd.choice([0.02, 0.05, 0.2]), rnd.choice([10, 20, 40]), rnd.randrange(2)), ck.seed)
+             for c in tcases if len({r[1] for r in c["rows"]}) == 2 for _ in range(2)]
+    cls_unordered = 0
+    for (c, conf, _), (viol, info) in zip(cjobs, pmap(_cls_nolp, cjobs, chunksize=2)):
+        ck.impl += 1
+        ck.nt(json.dumps([c["rows"], conf]))
+        cls_unordered += bool(info.get("unordered"))
+        for sig, text, detail in viol:
+            ck.violation(sig, text, {"rows": c["rows"], **detail})
+    ck.extra["classification_models_whose_weights_index_is_not_in_id_order"] = cls_unordered
     ck.evaluations = ck.impl
     ck.sample({"thresholder_config": recs[0].get("config"), "c10": {k: v for k, v in (recs[0].get("c10") or {}).items() if k != "bad"}})
     ck.sample({"eg_config": ejobs[0][1], "eg_info": erecs[0].get("info")})
